@@ -42,6 +42,9 @@ PROPS["C02"] = {
         ("contracts.wordcode", "xdis.cross_dis:unpack_opargs_bytecode_310/3.11+"),
         ("contracts.wordcode", "xdis.cross_dis:unpack_opargs_bytecode"),
         ("contracts.decoder", "xdis.bytecode:get_instructions_bytes"),
+        # the per-offset decoder (operand folding, EXTENDED_ARG carry, instruction size): every table in the thorough tier and
+        # in C03's quick tier; one table per encoding family here
+        ("contracts.decoder", "xdis.bytecode:get_logical_instruction_at_offset", {"quick": ["15", "27", "35", "38", "310", "311", "313"], "thorough": None}),
     ],
     "assumptions": [],
 }
@@ -59,6 +62,8 @@ PROPS["C04"] = {
         ("contracts.wordcode", "xdis.cross_dis:unpack_opargs_bytecode_310"),
         ("contracts.wordcode", "xdis.cross_dis:unpack_opargs_bytecode_310/3.11+"),
         ("contracts.wordcode", "xdis.cross_dis:unpack_opargs_bytecode"),
+        # the decoder's jump argval and is_jump_target (every table in the thorough tier and in C03's quick tier)
+        ("contracts.decoder", "xdis.bytecode:get_logical_instruction_at_offset", {"quick": ["27", "38", "310", "311", "312", "313"], "thorough": None}),
     ],
     "assumptions": [],
     "ground": [("ground.effects", "check_frames", {"prop": "C04", "roots": ['xdis.wordcode:findlabels', 'xdis.cross_dis:findlabels', 'xdis.cross_dis:findlabels_pre_310', 'xdis.bytecode:get_instructions_bytes']})],
